@@ -3,7 +3,8 @@ CONSTANTS
    MaxLogs = 1
    DestNames <- Dests_a
    MaxSet = 3
-   LvlFirst = {0, 3, 6}
+   LvlFirst = {2, 5}
+   LvlMid = {3}
    ClsFirst <- Cls_1_6_none
    LvlLast = {0, 1, 2, 3, 4, 5, 6}
    FullLast = TRUE
